@@ -734,3 +734,42 @@ def unit_test_suite_traces(res: Result, work: Work, which="rc"):
             ev = t["events"][at - 1] if 0 < at <= len(t["events"]) else None
             res.violation(f"a transformer run recorded during the repository's tests is not a behaviour of {module}: event {at} {ev}; the spec computes {exp}",
                           {"kind": "suite-trace", "events": t["events"], "event_index": at})
+
+
+# ------------------------------------------------------------------ spec -> code for deep random behaviours (tlc -simulate)
+def expand_forest(st):
+    """every evaluated tree on the machine's stack is a complete sub-expression with its evaluated node: one replayable state each"""
+    out = []
+    n = len(st["stack"])
+    for i in range(n):
+        out.append({"asg": st["asg"], "trees": (st["trees"][i],), "stack": (st["stack"][i],), "err": "nil", "prog": ()})
+    if st["err"] != "nil" and len(st["trees"]) == n + 1:
+        out.append({"asg": st["asg"], "trees": (st["trees"][n],), "stack": (), "err": st["err"], "prog": ()})
+    return out
+
+
+def replay_simulated(mode, res: Result, work: Work, num, depth=18, max_leaves=8):
+    from common import simulate_final_states
+    cfg = write_cfg(work, "sim.cfg", max_leaves, False, ["MachineAgreesWithDen", "ValidityIsStructural", "FcMeaning"], rc=(1, 2), hints=(501, 502), fcs=(901, 902))
+    t, finals = simulate_final_states("Eval", cfg, work, num, depth, seed() + 1)
+    res.add_tlc(f"Eval -simulate: {num} random behaviours to depth {depth} (<= {max_leaves} leaves), invariants checked along each", t)
+    import ahb
+    ahb.configure()
+    acc = Acc()
+
+    async def go():
+        idx = 0
+        for st in finals:
+            for sub_state in expand_forest(st):
+                idx += 1
+                if is_leaf(sub_state["trees"][0]):
+                    continue
+                await check_state(mode, sub_state, 10 ** 6 + idx, acc, seed())
+
+    asyncio.run(go())
+    for d, c in acc.viol:
+        res.violation(d, c)
+    res.count("traces_validated_against_impl", acc.counts.get("evaluations", 0))
+    res.count("evaluations", acc.counts.get("evaluations", 0))
+    res.count("simulated_subexpressions_replayed", acc.counts.get("evaluations", 0))
+    res.merge_distinct(acc.distinct)
